@@ -445,10 +445,10 @@ impl Prop for Prims {
     }
     fn streams(&self) -> Vec<Stream> {
         match self.0 {
-            Which::Distance => vec![Stream::new("exhaustive", 341, 1555), Stream::new("random", 24000, 720000)],
-            Which::Jaccard => vec![Stream::new("exhaustive", 341, 1365), Stream::new("random", 32000, 1600000)],
+            Which::Distance => vec![Stream::new("exhaustive", 341, 1555), Stream::new("random", 24000, 720000).miri(8)],
+            Which::Jaccard => vec![Stream::new("exhaustive", 341, 1365), Stream::new("random", 32000, 1600000).miri(8)],
             Which::Index => vec![Stream::new("stores", 6400, 320000), Stream::new("corpus", 96, 2880)],
-            Which::Unchecked => vec![Stream::new("direct", 24000, 1200000).asan(24000).miri(6), Stream::new("store", 6400, 320000).asan(6400).miri(3)],
+            Which::Unchecked => vec![Stream::new("direct", 24000, 1200000).asan(24000).miri(12), Stream::new("store", 6400, 320000).asan(6400).miri(6)],
         }
     }
     fn floors(&self) -> Vec<(&'static str, u64, u64)> {
@@ -484,10 +484,11 @@ impl Prop for Prims {
                 if own.is_some() {
                     cx.count("random cases on an instance of their own");
                 }
-                for step in 0..6 {
+                let miri = cx.tier == Tier::Miri;
+                for step in 0..(if miri { 2 } else { 6 }) {
                     let k = cx.rng.range(2, alpha.len());
                     let long = (step + idx as usize) % 2 == 0;
-                    let n1 = if long { cx.rng.range(18, 70) } else { cx.rng.below(9) };
+                    let n1 = if long { if miri { cx.rng.range(21, 26) } else { cx.rng.range(18, 70) } } else { cx.rng.below(9) };
                     let c1: Vec<char> = (0..n1).map(|_| alpha[cx.rng.below(k)]).collect();
                     let c2: Vec<char> = match cx.rng.below(4) {
                         0 => c1.clone(),
@@ -498,7 +499,7 @@ impl Prop for Prims {
                             e
                         }
                         _ => {
-                            let n2 = if cx.rng.chance(1, 3) { cx.rng.range(18, 70) } else { cx.rng.below(9) };
+                            let n2 = if cx.rng.chance(1, 3) && !miri { cx.rng.range(18, 70) } else { cx.rng.below(9) };
                             (0..n2).map(|_| alpha[cx.rng.below(k)]).collect()
                         }
                     };
@@ -525,7 +526,7 @@ impl Prop for Prims {
             #[cfg(lucid_suggest_verif)]
             (Which::Jaccard, "random") => {
                 let alpha = cv("abcdefghijklmnopqrstuvwxyzäöüßё");
-                for step in 0..8 {
+                for step in 0..(if cx.tier == Tier::Miri { 3 } else { 8 }) {
                     let k = cx.rng.range(1, alpha.len());
                     let long = (step + idx as usize) % 2 == 0;
                     let n1 = if long { cx.rng.range(20, 60) } else { cx.rng.below(7) };
